@@ -165,6 +165,10 @@ def kernel_cases(rng, n_ops, quick, shapes=None, metrics=False, pz=0.1, neg=Fals
                         ops["B"] = {"k": "F", "e": [[k, {"k": "L", "v": rng.randint(1, 2)}] for k in range(ext["k"])]}
                 for order in itertools.permutations(vs):
                     cases.append({"shape": name, "expr": expr, "ops": ops, "order": list(order), "style": "tf", "extents": ext, "zshape": 1})
+    # tiled operands: half of them tile with the `/` operator where it applies (tiled rank first in the operand, same step)
+    for c in cases:
+        if c.get("tile") and rng.random() < 0.5:
+            c["tilediv"] = 1
     return cases
 
 
